@@ -13,11 +13,11 @@ CHECKS = {
             "Per-program translation validation: every generated program that the documents determine is executed by the real pipeline and compared (final stack, printed text, termination, stack shapes at top-level statement boundaries) with a reference interpreter of the generator's AST.",
             "Trusts the reference model (written from the specs; skips where they are silent) and the probe that captures the exec namespace; covers the closed core of ~35 elements only."),
     "C02": ("exploration",
-            "icontract postcondition on transpile (result compiles) over grammar-derived programs: every element key x 14 positions, break/recurse x parents, exhaustive <=5-token programs, random G-full",
+            "icontract postcondition on transpile (result compiles) over grammar-derived programs: every element key, every non-element token and every modifier operand form x ~70 positions, break/recurse x parents, names over the code page, every header spelling, exhaustive <=5-token programs, random G-full",
             "Exploration with a runtime contract on the real transpiler; exhaustive for the small structural alphabet, sampled beyond.",
             "Well-formedness is decided by construction of the generator (own reference lexer self-check), never by the repo's parser."),
     "C03": ("exploration",
-            "metamorphic monitor on parse(tokenise(.)): 40 contexts x 7 literal kinds x all payloads of length<=2 over the syntax-significant characters, plus random nestings; tree and token events must differ only at the literal",
+            "metamorphic monitor on parse(tokenise(.)): 64 contexts (structure positions, modifier slots, nested, truncated, break after a modifier operand, 120-240 token bodies) x 7 literal kinds x all payloads of length<=2 over the syntax-significant characters, plus random nestings; tree and token events and the generated Python must differ only at the literal",
             "Exhaustive over the bounded payload/context space stated in the property, sampled beyond.",
             "Contexts are a fixed committed set; the literal's position is located by differential runs with harmless payloads."),
     "C04": ("exploration",
@@ -41,11 +41,11 @@ CHECKS = {
             "Sampled per (element, shape, eager/lazy) cell with a minimum of conclusive cases per cell.",
             "The curated table (data/c08_vectorising.json) is committed data derived from elements.yaml with written exclusions."),
     "C09": ("exploration",
-            "sentinel-prefix monitor: every element key and modifier x element executed through program text on sentinels + arguments; identity and value of the prefix checked, plus a sys.monitoring watch on helpers.pop for pops below the sentinel line",
+            "sentinel-prefix monitor: every element key and modifier x element executed through program text on sentinels + arguments; identity and value of the prefix checked, history cases (every key above the entries 17 producer programs left, compared with the producer run alone), plus a sys.monitoring watch on helpers.pop for pops below the sentinel line",
             "All ~390 keys with generated argument tuples; only normally completed executions make a claim.",
             "Documented whole-stack operations are exempt by key."),
     "C10": ("exploration",
-            "argument-snapshot monitor (G-val specs materialised twice), copy-then-transform programs, and a sys.monitoring PY_START/PY_RETURN ride-along that snapshots list arguments of every element function (append-only rule for lazy caches)",
+            "argument-snapshot monitor (G-val specs materialised twice, lazy arguments with an observation history, degenerate list shapes per argument position), copy-then-transform programs on harness-built and program-produced (endless, flagged) values, and a sys.monitoring PY_START/PY_RETURN ride-along that snapshots list arguments of every element function (append-only rule for lazy caches)",
             "All keys with generated arguments plus copy programs over D : Ḃ ¾ variables register global array.",
             "A lazy list argument may grow its cache but must denote the same sequence."),
     "C11": ("exploration",
@@ -69,11 +69,11 @@ CHECKS = {
             "Exhaustive small ranges, boundary values b^k-1, b^k, b^k+1, random large values and strings.",
             "Equality / length comparison is the oracle."),
     "C16": ("exploration",
-            "36 executable laws with itertools/builtins right-hand sides over all small integer lists and random lists/strings, each also as lazy / nested-lazy / sympy-integer variants",
+            "36 executable laws with itertools/builtins right-hand sides over all small integer lists and random lists/strings, each also as lazy / nested-lazy / sympy-integer variants, plus ~130 composed laws (second element on the first one's result)",
             "Exhaustive small lists plus random; every law must be evaluated (per-law minimum counters).",
             "Orders compared only where the documentation fixes them, multisets otherwise."),
     "C17": ("exploration",
-            "39 laws against naive reference definitions (trial division, Euclid, Pascal ...) with exact value and type, exhaustive n ranges, pairs, special numbers, inverse pairs",
+            "39 laws against naive reference definitions (trial division, Euclid, Pascal ...) with exact value and type, exhaustive n ranges, pairs, special numbers (pseudoprimes, Carmichael numbers, every n inside the maximal prime gaps below 1e12), inverse pairs, flag variants, and the laws re-run after large-argument programs in the same process",
             "Exhaustive 0..2000 (quick) / 0..20000 (thorough) plus random to 1e12.",
             "Naive definitions are the oracle."),
     "C18": ("exploration",
@@ -85,7 +85,7 @@ CHECKS = {
             "Sampled model-determined programs, taint programs through E † Ė and inputs, fault injection; positive control offline.",
             "sympy-backed string overloads are outside the property; taint marker must not collide with repo identifiers."),
     "C20": ("exploration",
-            "exhaustive execution of code-page converters, lexer, parser and transpiler on every byte pair and table key; ast read of the table source for duplicate keys",
+            "exhaustive execution of code-page converters, lexer, parser and transpiler on every byte pair and table key; every byte string of length <= 2 as a program file in both encodings through execute_vyxal with the transpiler input recorded; every element run directly and through a modifier (arity in use); ast read of the table source for duplicate keys",
             "Finite domain enumerated completely by running the real functions; a monitor compares each result with the one-token / round-trip / arity oracle.",
             "elements.yaml read by a subset parser; duplicate dict keys read statically (leave no run-time trace)."),
 }
